@@ -221,7 +221,7 @@ def run(outdir, jobs):
     if os.path.exists(rp):
         for l in open(rp):
             done.add(json.loads(l)['id'])
-    todo = sorted(d for d in os.listdir(outdir) if d.startswith('m') and d not in done
+    todo = sorted(d for d in os.listdir(outdir) if (d.startswith('m') or d.startswith('b2_m')) and d not in done
                   and os.path.isdir(os.path.join(outdir, d)))
     wts = []
     for k in range(jobs):
